@@ -201,6 +201,9 @@ fn c16_constructed_is_wellformed() {
         let a = Assertion::sequence(col, f, s, values);
         assert!(s.is_power_of_two() && s >= 2 && f < s && n >= 1 && n.is_power_of_two(), "ACCEPTED-ILL-FORMED sequence assertion");
         assert!(a.values().len() == n && a.first_step() == f, "ACCEPTED-ILL-FORMED sequence accessors");
+        // a sequence of exactly one value names one cell: it is a single-step assertion (no stride), a longer one keeps its stride
+        assert!(a.stride() == if n == 1 { 0 } else { s }, "ACCEPTED-ILL-FORMED sequence: stride of the constructed assertion");
+        assert!(a.is_single() == (n == 1) && a.is_sequence() == (n > 1) && !a.is_periodic(), "ACCEPTED-ILL-FORMED sequence: kind of the constructed assertion");
         kani::cover!(n == 8);
         core::mem::forget(a);
     }
